@@ -70,12 +70,12 @@ def run_walk(sess):
                 exp = And(reach[i], win(depth[i]))
                 conds.append(If(exp, BitVecVal(1, 8), BitVecVal(0, 8)) == BitVecVal(cnt.get((i, None), 0), 8))
                 for j in range(fs.max_members):
-                    mexp = And(exp, fs.is_zip[i], fs.zip_ok[i], Not(ctx.ghost['open_fault'][i]), Not(fs.isdir(i)), ULT(BitVecVal(j, 8), fs.members[i]), Not(mf[(i, j)])) if archives else BoolVal(False)
+                    mexp = And(exp, fs.is_zip[i], fs.zip_ok[i], Not(ctx.ghost['open_fault'][i]), Not(fs.isdir(i)), ULT(BitVecVal(j, 8), fs.members[i])) if archives else BoolVal(False)      # a member whose DATA cannot be read (mf: unsupported method, encrypted) is a member all the same
                     conds.append(If(mexp, BitVecVal(1, 8), BitVecVal(0, 8)) == BitVecVal(cnt.get((i, j), 0), 8))
             for t in cnt:
                 if t[1] is not None and t[1] >= fs.max_members:
                     conds.append(BoolVal(False))
-            conds.append(status == 0)       # corrupt archives / unreadable members are skipped silently
+            conds.append(status == 0)       # corrupt archives are skipped silently
             r = ctx.check(Not(And(conds)))
             if r == z3.unsat:
                 return
@@ -95,12 +95,12 @@ def run_walk(sess):
         if not complete:
             sess.inconclusive(name, 'time budget exceeded after %d paths' % n, fam)
         elif not viol and not st.get('bad'):
-            sess.discharged(name + ': members of every readable archive exactly once, corrupt archives and unreadable members skipped, ordinary rows unchanged, status 0',
+            sess.discharged(name + ': members of every readable archive exactly once (also those whose data cannot be read), corrupt archives skipped, ordinary rows unchanged, status 0',
                             family=fam, queries=st['paths'])
 
 
 def make_zip_with_bad(n, bad):
-    """stored zip with members m0..; members in `bad` get an unsupported compression method (by_index fails)"""
+    """stored zip with members m0..; members in `bad` get an unsupported compression method (by_index fails, by_index_raw does not)"""
     import struct
     out = b''; cd = b''; off = 0
     for i in range(n):
@@ -140,7 +140,7 @@ def cli_replay(fs, m, mind, mf, archives, dfs=False):
             if inwin:
                 want.append(newp)
                 if iszip and zok and archives:
-                    want += ['[%s] m%d' % (newp, j) for j in range(nm) if j not in bad]
+                    want += ['[%s] m%d' % (newp, j) for j in range(nm)]       # also those whose data cannot be read: name, size, mode and date are in the directory of the archive
         for i in range(1, fs.M):
             if usable[i] and not path[i].startswith(path[par[i]] + '/'):
                 old = path[i]; path[i] = path[par[i]] + '/' + old.rsplit('/', 1)[1]
@@ -157,7 +157,7 @@ def cli_replay(fs, m, mind, mf, archives, dfs=False):
 def main(sess):
     sess.engines = ['mirsym (MIR symbolic execution) + z3']
     sess.assumptions += [
-        'abstract file system as in C01; zip archives by contract: ZipArchive::new Ok/Err, len, by_index Ok/Err per member; which names count as archives '
+        'abstract file system as in C01; zip archives by contract: ZipArchive::new Ok/Err, len, by_index Ok/Err per member (Err = the DATA of the member cannot be read: unsupported method, encrypted), by_index_raw Ok for every member of an archive that opened; which names count as archives '
         '(is_zip_archive / has_extension with the configured list) is summarised as a symbolic flag per file (the extension test is decided under C04)',
         'the zip crate itself (central directory parsing, truncated files) is trusted; member attributes (to_file_info, get_field_value arms) see family fileinfo',
         'check_file summarised as a ghost trace; LIMIT / ORDER BY interplay with archives is decided under C06',
